@@ -184,8 +184,14 @@ class Gen(object):
         except Exception:
             return []
 
+    pending = None
+
     def next_event(self):
         r, p, d = self.rng, self.p, self.drv
+        if self.pending:
+            e = self.pending.pop(0)
+            if e["k"] == "Drop" and d.up and e["c"] in d.protos:
+                return e
         if not d.up:
             if r.random() < 0.5 and p["w_advance"]:
                 return ev0("Advance", d=r.choice(p["advance"]))
@@ -225,7 +231,17 @@ class Gen(object):
             return ev0("Drop", c=r.choice(upc))
         if k == "cmd":
             c = r.choice(upc)
-            return ev0("Cmd", c=c, m=self.rand_msg(fl[c]))
+            m = self.rand_msg(fl[c])
+            if m["type"] == "add" and r.random() < p.get("sendfail", 0.06):
+                # another connection says goodbye at this very moment: it is in its closing handshake
+                # while the add is broadcast (the send to it fails), and gone right afterwards
+                others = [x for x in upc if x != c]
+                subs = [x for x in others if fl[x]["listening"] and fl[x]["mboxId"] == fl[c]["mboxId"]]
+                if others:
+                    x = r.choice(subs or others)
+                    self.pending = [ev0("Drop", c=x)]
+                    return ev0("Cmd", c=c, m=m, pick=x)
+            return ev0("Cmd", c=c, m=m)
         if k == "crashin":
             c = r.choice(upc)
             return ev0("CrashInCmd", c=c, m=self.rand_msg(fl[c]), at=r.choice([0, 0, 1, 1, 2, 3]))
@@ -836,7 +852,15 @@ def run_scripted(rng, drv, profile, tid):
         cl.pc += 1
         if m is None:
             continue
-        o = do(ev0("Cmd", c=cl.conn, m=m))
+        pick = ABSENT
+        if m["type"] == "add" and rng.random() < p.get("sendfail", 0.06):
+            # another connection says goodbye at this very moment (closing handshake: the send to it fails)
+            others = [x for x in drv.protos if x != cl.conn]
+            if others:
+                pick = rng.choice(others)
+        o = do(ev0("Cmd", c=cl.conn, m=m, pick=pick))
+        if pick != ABSENT:
+            do(ev0("Drop", c=pick))
         if m["type"] in ("claim", "release", "open", "close"):
             cl.last = m
         learn(cl, o)
